@@ -72,7 +72,13 @@
                            order, same number of rows, the token read back is the token written;
      C01_data_roundtrip_lines  the same with the cleanliness asked of the produced physical
                            lines (clean_lineb) instead of the tokens;
-     C01_roundtrip_cell    cell by cell: cols[j][i] = mk_num (field_tok ... rows[i][j]).
+     C01_roundtrip_cell    cell by cell: cols[j][i] = mk_num (field_tok ... rows[i][j]);
+     C01_write_data_lines  the text returned by Model/Writer.v write (whole function, every
+                           option) ENDS with exactly these lines: the rows of the in-memory
+                           file as it is after the call (las_rows), printed by row_text with
+                           the NULL text of its ~Well section (las_null_text), passed through
+                           TextWrap.wrap (wo_data_width o) when the wrap flag is set (it is the
+                           `wrap` option when given), each followed by a newline.
    Hypotheses of C01_data_roundtrip (the domain; all decidable: wr_tokb, separatedb):
      * every tok i j is non-empty, white-space-free, float() accepts it (num_tok) and it is
        clean: no '#', quote, chr 26, and none of the three substitution patterns matches
@@ -82,10 +88,12 @@
      * lhs_spacer and spacer consist of white space; every row is `separated` (the clause
        the harness's in_domain checks on every generated case).
    Not proved here / partial with respect to the property text:
-     * the composition is stated on the data lines (Writer.row_text / TextWrap.wrap ->
-       DataRead engines), not on Model/Read.v read (Model/Writer.v write ...): that the reader
-       derives c, WRAP and NULL from the written header (mnemonics, curve count) is the header
-       round trip (C03/C11) and is covered here only by the correspondence runs of the harness;
+     * the composition is stated on the data lines (C01_write_data_lines: they are what write
+       emits; then Writer.row_text / TextWrap.wrap -> DataRead engines), not on Model/Read.v
+       read (Model/Writer.v write ...): that the reader cuts the ~A section at exactly these
+       lines (Model/Sections.v body_lines, shared with C02/C05) and derives c, WRAP and NULL from
+       the written header (mnemonics, curve count: the header round trip C03/C11) is covered
+       here only by the correspondence runs of the harness;
      * NULL on the way back: the NULL text comes back as the numeric cell mk_num nt and is then
        mapped to NaN by null_columns — C06_iff / C06_iff_cellwise; the index column is never
        nulled — C06_index_kept (Props/C06.v);
@@ -96,7 +104,8 @@
 From Coq Require Import List NArith Bool String.
 Import ListNotations.
 Require Import PyStr Regex Regexes NumLit TextWrap DataRead Writer.
-Require Import RegexSubFacts RegexLocalFacts SplitWsFacts TextWrapProofs DataReadProofs WriteDataProofs.
+Require Import RegexSubFacts RegexLocalFacts SplitWsFacts TextWrapProofs DataReadProofs WriteDataProofs
+  WriteDataTextProofs.
 Open Scope string_scope.
 Open Scope list_scope.
 
@@ -265,6 +274,16 @@ Theorem C01_roundtrip_cell : forall fmtv fhex o nt (rows : list (list cell)) c i
   Some (mk_num fhex (match cell with CNum t => fmtv (col_fmt o j) t | CNaN => nt | CStr s => s end)).
 Proof. exact roundtrip_cell. Qed.
 
+(* the data lines are what `write` emits *)
+Theorem C01_write_data_lines : forall fmtv fmt_diff fmt_pi fstr fzero numeq o m text m',
+  write fmtv fmt_diff fmt_pi fstr fzero numeq o m = WOk text m' ->
+  exists (head : list N) (wrapflag : bool) (rts : list (list N)),
+    opt_all (map (row_text fmtv fmt_pi o (las_null_text fstr (m_las m')) 0) (las_rows (m_las m'))) = Some rts /\
+    text = head ++ flat_map (fun ln => ln ++ [ch_nl])
+                     (if wrapflag then flat_map (TextWrap.wrap (wo_data_width o)) rts else rts) /\
+    (forall b, wo_wrap o = Some b -> wrapflag = b).
+Proof. exact write_data_lines. Qed.
+
 (* the domain predicate on a physical line is the character / substitution part of C02's *)
 Theorem C01_clean_is_dom2 : forall fhex c raw,
   is_data_lineb fhex c raw =
@@ -391,4 +410,5 @@ Print Assumptions C01_nomatch_tokens.
 Print Assumptions C01_data_roundtrip.
 Print Assumptions C01_data_roundtrip_lines.
 Print Assumptions C01_roundtrip_cell.
+Print Assumptions C01_write_data_lines.
 Print Assumptions C01_clean_is_dom2.
